@@ -205,6 +205,12 @@ func Pool() []Block {
 				N("Request").WithKids(N("Headers").WithBody("{\n  \"H\": \"v\"\n}"), N("Body", "any")),
 				N("200").WithBody("{\n  \"ok\": true\n}"))
 		})},
+		// a response / a request that carries its schema itself AND has a Headers child below it
+		{Name: "H_bh", Kind: "http", Defines: []string{"path:/bh"}, Nodes: one(func() *Node {
+			return N("POST", "/bh").WithKids(
+				N("Request").WithBody("{\n  \"rq\": 1\n}").WithKids(N("Headers").WithBody("{\n  \"X-Token\": \"abc\"\n}")),
+				N("200").WithBody("{\n  \"id\": 1\n}").WithKids(N("Headers").WithBody("{\n  \"X-Total\": 1\n}")))
+		})},
 		{Name: "R_rpc", Kind: "rpc", Defines: []string{"path:/rpc"}, Nodes: one(func() *Node {
 			return N("URL", "/rpc").WithParen().WithKids(
 				N("Protocol", "json-rpc-2.0"),
